@@ -24,8 +24,15 @@ OCT = {"<start>": ["<octal_digits>", "<decimal_digits>"],
 TEXT = {"<start>": ["<word>"], "<word>": ["<ch><word>", "<ch>"], "<ch>": ["a", "b", " "]}
 PADS = {"<start>": ["<item>"], "<item>": ["<name><pad>"], "<name>": ["<ch><name>", "<ch>"], "<ch>": ["a", "b"],
         "<pad>": [" <pad>", ""]}
+# siblings: the same nonterminal names with other productions (left-recursive, one more letter); their calls are
+# interleaved with those of TEXT / OCT in one interpreter (state kept between calls must not leak across grammars)
+TEXTL = {"<start>": ["<word>"], "<word>": ["<word><ch>", "<ch>"], "<ch>": ["a", "b", " ", "z"]}
+OCTL = {"<start>": ["<octal_digits>", "<decimal_digits>"],
+        "<octal_digits>": ["<octal_digits><octal_digit>", "<octal_digit>"], "<octal_digit>": list("01234567"),
+        "<decimal_digits>": ["<decimal_digits><decimal_digit>", "<decimal_digit>"], "<decimal_digit>": list("0123456789")}
+SIBLING = {"TEXT": "TEXTL", "OCT": "OCTL"}
 KW = {"<start>": ["<kws>"], "<kws>": ["<kw><kws>", "<kw>"], "<kw>": ["if", "iff", "f"]}
-GRAMMARS = {"OCT": OCT, "TEXT": TEXT, "PADS": PADS, "KW": KW, "CSVISH": catalogue.CSVISH, "ASSGN2": catalogue.ASSGN2,
+GRAMMARS = {"OCT": OCT, "OCTL": OCTL, "TEXT": TEXT, "TEXTL": TEXTL, "PADS": PADS, "KW": KW, "CSVISH": catalogue.CSVISH, "ASSGN2": catalogue.ASSGN2,
             "XMLISH": catalogue.XMLISH}
 COUNT_PLAN = {  # grammar -> roots, needles, depth, nodes
     "CSVISH": (["<start>", "<row>"], ["<row>", "<field>", "<rows>"], 8, 20),
@@ -34,6 +41,7 @@ COUNT_PLAN = {  # grammar -> roots, needles, depth, nodes
 }
 WIDTH_PLAN = {  # grammar -> roots, fill characters, depth, nodes
     "TEXT": (["<word>"], ["a", " ", "z"], 4, 9),
+    "TEXTL": (["<word>"], ["z", " "], 4, 9),
     "PADS": (["<item>", "<pad>", "<name>"], [" ", "a"], 5, 12),
     "KW": (["<kws>", "<kw>"], ["f", "i"], 3, 6),
 }
@@ -95,6 +103,7 @@ def build_rows(chk, wd):
     dd, dn = P.get("deeper", (0, 0))      # thorough: text trees one level deeper
     jobs = [(n, v[0], v[2], v[3]) for n, v in COUNT_PLAN.items()] + [(n, v[0], v[2] + dd, v[3] + dn) for n, v in WIDTH_PLAN.items()]
     jobs.append(("OCT", ["<octal_digits>", "<decimal_digits>"], P["oct_depth"], P["oct_nodes"]))
+    jobs.append(("OCTL", ["<octal_digits>", "<decimal_digits>"], P["oct_depth"], P["oct_nodes"]))
     gens = tmap(lambda j: gen(wd, *j), jobs, nthreads=min(NPROC, 5))
     trees = {}
     for j, (r, d) in zip(jobs, gens):
@@ -115,40 +124,48 @@ def build_rows(chk, wd):
                                      "a": {"t": t, "needle": needle, "numvar": False, "num": k}})
                     rows.append({"grammar": name, "name": "count", "num_as": "var", "a": {"t": t, "needle": needle, "numvar": True, "num": 0}})
     # ---- octal_to_decimal --------------------------------------------------------------
-    octs, decs = trees["OCT"]["<octal_digits>"], trees["OCT"]["<decimal_digits>"]
-    for t in decs:
-        pj.renumber(t, 500)          # the two arguments of one call carry disjoint ids
-    dec_by = {pj.jyield(t): t for t in decs}
     ont, dnt = "<octal_digits>", "<decimal_digits>"
+    for gname in ("OCT", "OCTL"):
+        octs, decs = trees[gname][ont], trees[gname][dnt]
+        for t in decs:
+            pj.renumber(t, 500)          # the two arguments of one call carry disjoint ids
+        dec_by = {pj.jyield(t): t for t in decs}
 
-    def dec_tree(s):
-        return dec_by.get(s) or numeral(dnt, "<decimal_digit>", s, [20000 + len(rows) * 40])
+        def dec_tree(s):
+            if s in dec_by:
+                return dec_by[s]
+            return numeral(dnt, "<decimal_digit>", s, [20000 + len(rows) * 40]) if gname == "OCT" else None
 
-    def orow(o, d, ovar=False, dvar=False):
-        a = {"ovar": ovar, "dvar": dvar, "ont": ont, "dnt": dnt}
-        if not ovar:
-            a["o"] = o
-        if not dvar:
-            a["d"] = d
-        rows.append({"grammar": "OCT", "name": "octal_to_decimal", "a": a})
-    for o in sample(rnd, octs, P["oct_trees"]):
-        s = pj.jyield(o)
-        v = str(int(s, 8))           # choice of inputs only: pairs that are related, and near misses
-        cands = [v, "0" + v, s, str(int(s, 8) + 1)] + [pj.jyield(rnd.choice(decs)) for _ in range(P["oct_random"])]
-        for dstr in dict.fromkeys(cands):
-            orow(o, dec_tree(dstr))
-        orow(o, None, dvar=True)
-    for d in sample(rnd, decs, P["oct_trees"]):
-        orow(None, d, ovar=True)
-    for k in range(P["long_numerals"]):
-        n = rnd.choice([4, 5, 6, 8, 9])
-        s = "".join(rnd.choice("01234567") for _ in range(n))
-        o = numeral(ont, "<octal_digit>", s, [10000 + k * 40])
-        v = int(s, 8)
-        for dstr in (str(v), str(v + rnd.choice([1, 8, 64])), s if len(s) <= 9 else s[:9]):
-            orow(o, dec_tree(dstr))
-        orow(o, None, dvar=True)
-        orow(None, dec_tree(str(rnd.randrange(0, 2 ** 27))), ovar=True)
+        def orow(o, d, ovar=False, dvar=False):
+            a = {"ovar": ovar, "dvar": dvar, "ont": ont, "dnt": dnt}
+            if not ovar:
+                a["o"] = o
+            if not dvar:
+                if d is None:
+                    return               # numeral not among the enumerated trees of the sibling grammar
+                a["d"] = d
+            rows.append({"grammar": gname, "name": "octal_to_decimal", "a": a})
+        n_trees = P["oct_trees"] if gname == "OCT" else max(12, P["oct_trees"] // 5)
+        for o in sample(rnd, octs, n_trees):
+            s = pj.jyield(o)
+            v = str(int(s, 8))           # choice of inputs only: pairs that are related, and near misses
+            cands = [v, "0" + v, s, str(int(s, 8) + 1)] + [pj.jyield(rnd.choice(decs)) for _ in range(P["oct_random"])]
+            for dstr in dict.fromkeys(cands):
+                orow(o, dec_tree(dstr))
+            orow(o, None, dvar=True)
+        for d in sample(rnd, decs, n_trees):
+            orow(None, d, ovar=True)
+        if gname != "OCT":
+            continue
+        for k in range(P["long_numerals"]):
+            n = rnd.choice([4, 5, 6, 8, 9])
+            s = "".join(rnd.choice("01234567") for _ in range(n))
+            o = numeral(ont, "<octal_digit>", s, [10000 + k * 40])
+            v = int(s, 8)
+            for dstr in (str(v), str(v + rnd.choice([1, 8, 64])), s if len(s) <= 9 else s[:9]):
+                orow(o, dec_tree(dstr))
+            orow(o, None, dvar=True)
+            orow(None, dec_tree(str(rnd.randrange(0, 2 ** 27))), ovar=True)
     # ---- width predicates ----------------------------------------------------------------
     for name, (roots, fills, _, _) in WIDTH_PLAN.items():
         for root in roots:
@@ -200,11 +217,20 @@ def run(chk, rows):
             rows = build_rows(chk, wd)
         byid = {r["id"]: r for r in rows}
         tasks = []
-        for name in sorted({r["grammar"] for r in rows}):
-            rs = [r for r in rows if r["grammar"] == name]
-            for c in chunks(rs, max(2, len(rs) // 250)):
-                tasks.append({"g": pj.grammar_to_json(GRAMMARS[name]), "grammar": name, "cap": P["cap"],
-                              "rows": [{k: v for k, v in r.items() if k != "grammar"} for r in c]})
+        names = sorted({r["grammar"] for r in rows})
+        inv = {v: k for k, v in SIBLING.items()}
+        groups = [[n] + ([SIBLING[n]] if SIBLING.get(n) in names else []) for n in names if inv.get(n) not in names]
+        for grp in groups:
+            # calls for a grammar and its sibling alternate in blocks within one interpreter
+            per = {n: chunks([r for r in rows if r["grammar"] == n], max(1, len([r for r in rows if r["grammar"] == n]) // 40)) for n in grp}
+            merged, k = [], 0
+            while any(per.values()):
+                n = grp[k % len(grp)]
+                k += 1
+                if per[n]:
+                    merged.extend(per[n].pop(0))
+            for c in chunks(merged, max(2, len(merged) // 250)):
+                tasks.append({"gs": {n: pj.grammar_to_json(GRAMMARS[n]) for n in grp}, "cap": P["cap"], "rows": c})
         results = pmap("c20", tasks, timeout=P["task_timeout"])
         gnames, gs, jrows, obs = [], [], [], {}
         for t, res in zip(tasks, results):
@@ -214,9 +240,10 @@ def run(chk, rows):
                 continue
             if "rows" not in res:
                 raise RuntimeError("C20 driver failed: %r" % (res,))
-            if t["grammar"] not in gnames:
-                gnames.append(t["grammar"])
-                gs.append(t["g"])
+            for n, gj in t["gs"].items():
+                if n not in gnames:
+                    gnames.append(n)
+                    gs.append(gj)
             for o in res["rows"]:
                 r = byid[o["id"]]
                 chk.note("calls_" + r["name"])
@@ -225,7 +252,7 @@ def run(chk, rows):
                     chk.note("call_timeouts")
                     continue
                 obs[r["id"]] = o
-                jrows.append({"id": r["id"], "gi": gnames.index(t["grammar"]) + 1, "name": r["name"], "a": r["a"], "obs": o["obs"]})
+                jrows.append({"id": r["id"], "gi": gnames.index(r["grammar"]) + 1, "name": r["name"], "a": r["a"], "obs": o["obs"]})
         shards = chunks(jrows, max(1, min(len(jrows), NPROC))) if jrows else []
         rs = tmap(lambda ks: judge(wd, ks[0], gs, ks[1]), list(enumerate(shards)))
         judged = 0
